@@ -1085,6 +1085,10 @@ func c14(c *core.Ctx, r *core.Report) {
 					r.OK(key, an.Pos(c, in), "constant divisor %s", k.Value)
 					return
 				}
+				if k, isK := foldConst(div); isK && k != 0 {
+					r.OK(key, an.Pos(c, in), "divisor %s is the non-zero constant %d", an.D().Of(bo.Y), k)
+					return
+				}
 				if call, isCall := div.(*ssa.Call); isCall && len(call.Call.Args) == 1 {
 					if k, isK := call.Call.Args[0].(*ssa.Const); isK && isDuration(k.Type()) && an.Callee(call) != nil && an.Callee(call).Name() == "Milliseconds" && k.Int64() >= 1000000 {
 						r.OK(key, an.Pos(c, in), "divisor is (%dns).Milliseconds(), a non-zero constant", k.Int64())
